@@ -929,6 +929,7 @@ fn ni_case(case: u64, rng: &mut Rng, st: &mut Stats, thorough: bool) {
         st.count(&format!("config_path_{}", cfg.path));
         let mut nontrivial = false;
         let mut allowed_some = false;
+        let purged_hidden = script.tail.iter().any(|t| matches!(t, Step::Kml { cmd, .. } if cmd.starts_with("PURGE")));
         for q in &bat {
             let a1 = mask(&observe(&p1, &w1, &script, 0, q).await);
             let a2 = mask(&observe(&p2, &w2, &script, 1, q).await);
@@ -957,6 +958,10 @@ fn ni_case(case: u64, rng: &mut Rng, st: &mut Stats, thorough: bool) {
                 let sig = if cfg.path == "policy_ceiling" {
                     // one root cause for every family: the ceiling of a policy allow statement
                     "C19/ni/policy_allow_max_classification_not_enforced".to_string()
+                } else if purged_hidden && matches!(q.family, "history" | "changes") {
+                    // S2 purged a hidden element: the stub lost its classification with the rest
+                    // of its governance block, and the journal now names it to p
+                    "C19/ni/purge_declassifies_the_stub_history_names_it".to_string()
                 } else if mask_keys(&a1, &SEQ_KEYS) == mask_keys(&a2, &SEQ_KEYS) {
                     // the only difference is a Space-level sequence number / coordinate
                     "C19/ni/space_sequence_reveals_hidden_commits".to_string()
